@@ -27,6 +27,10 @@ func (prop) Run(c core.Case) core.Outcome {
 	out.Checks = append(out.Checks, createFvChecks(e)...) // sequences with create-fv: model of wp-c02b (createfv.go)
 	out.Checks = append(out.Checks, e.InputValid())
 	out.Checks = append(out.Checks, e.ChecksC02()...)
+	if isNvCase(c) { // images with NVAR stores, nvram-compact (gap round 2, nvram.go)
+		out.Class = nvClass(c, e)
+		out.Checks = append(out.Checks, nvChecks(e)...)
+	}
 	return out
 }
 
@@ -34,8 +38,11 @@ func (prop) Gen(r *rand.Rand, tier string) []core.Case {
 	// the create-fv cases come last: the random stream of the older generators is unchanged
 	if tier == "thorough" {
 		cs := append(append(append(ue.ExhaustiveCases(3), append(ue.WrapperCases(), ue.TailCases()...)...), bigCases(tier)...), ue.RandomCases(r, 20000, true)...)
-		return append(cs, createFvCases(r, 1500)...)
+		cs = append(cs, createFvCases(r, 1500)...)
+		return append(append(cs, ue.NvFixedCases()...), ue.NvRandomCases(r, 3000)...)
 	}
 	cs := append(append(append(ue.ExhaustiveCases(1), append(ue.WrapperCases(), ue.TailCases()...)...), bigCases(tier)...), ue.RandomCases(r, 400, true)...)
-	return append(cs, createFvCases(r, 120)...)
+	cs = append(cs, createFvCases(r, 120)...)
+	// images with NVAR stores and nvram-compact come last of all (gap round 2)
+	return append(append(cs, ue.NvFixedCases()...), ue.NvRandomCases(r, 250)...)
 }
